@@ -104,6 +104,17 @@ def main():
     except Exception as e:  # noqa: BLE001
         print(json.dumps({"confirmed": False, "reason": f"model not concretisable: {type(e).__name__}: {e}"}))
         return
+    evaluate(job, params)
+
+
+def evaluate(job, params, sink=None):
+    """call the real function on concrete parameter objects and re-evaluate the contract; prints (or, with `sink`, returns) the report"""
+    def print(x):  # noqa: A001 -- one report per call
+        if sink is None:
+            sys.stdout.write(x + "\n")
+        else:
+            sink.append(json.loads(x))
+
     mod, qual = job["key"].split(":")
     env = dict(NS)
     env.update(params)
